@@ -65,6 +65,8 @@ POOLS = {
     "to_camel_case": [["foo_bar"], ["FooBar"], ["foo-bar"], ["_foo"], ["foo__bar"], ["HTTPServer_id"], [""], ["a_b_c"], ["x-"], ["get2FA"]],
     "fix_name_segment": [["class"], ["name"], ["import"], ["license"], [""], ["class_"], ["Class"]],
     "fix_field_path": [["book.class"], ["class.name"], ["import.from.x"], ["a"], [""], ["a..b"], [".class"], ["type.type"]],
+    "field_header_disambiguated": [["book.class"], ["class.name"], ["import.from.x"], ["a"], [""], ["a..b"], [".class"], ["type.type"], ["name"]],
+    "routing_param_disambiguated_field": [["book.class"], ["class"], ["scope.type"], ["a"], [""], ["name"]],
     "make_private": [["a"], ["_a"], [""], ["__a"], ["A_b"]],
     "coerce_response_name": [["$resp"], ["$resp.name"], ["x.$resp"], ["$resp$resp"], ["resp"], [""]],
     "address_resolve": [[pk, sel] for pk in ([], ["acme"], ["acme", "lib", "v1"]) for sel in ("Book", "a.Book", ".Book", "", ".", "Outer.Inner", "Book.")],
@@ -80,6 +82,8 @@ GENS = {
     "to_camel_case": lambda r: ["".join(r.pick(["foo", "Bar", "_", "-", "ID", "x", "2", "HTTP", "__"]) for _ in range(r.randint(0, 5)))],
     "fix_name_segment": lambda r: [r.pick(["class", "type", "format", "book", "from", "in", "id", "x"]) + r.pick(["", "", "_", "s"])],
     "fix_field_path": lambda r: [".".join(r.pick(["class", "type", "format", "book", "from", "name", "x", "license"]) for _ in range(r.randint(1, 4)))],
+    "field_header_disambiguated": lambda r: [".".join(r.pick(["class", "type", "format", "book", "from", "name", "x", "license"]) for _ in range(r.randint(1, 4)))],
+    "routing_param_disambiguated_field": lambda r: [".".join(r.pick(["class", "type", "format", "book", "from", "name", "x", "license"]) for _ in range(r.randint(1, 4)))],
     "make_private": lambda r: [rand_str(r, 5, ws=False)],
     "coerce_response_name": lambda r: ["".join(r.pick(["$resp", ".", "a", "$", "resp", "_"]) for _ in range(r.randint(0, 5)))],
     "address_resolve": lambda r: [[r.pick(["acme", "lib", "v1", "a", "x_y"]) for _ in range(r.randint(0, 3))], rand_str(r, 6, ws=False)],
@@ -94,6 +98,12 @@ def call_real(name, meta, args):
             raise Skip()
         out = convert_uri_fieldnames("/v1/{%s=things/*}" % args[0])
         return out[len("/v1/{"):-len("=things/*}")]
+    if name == "field_header_disambiguated":
+        from gapic.schema import wrappers
+        return wrappers.FieldHeader(args[0]).disambiguated
+    if name == "routing_param_disambiguated_field":
+        from gapic.schema import wrappers
+        return wrappers.RoutingParameter(field=args[0], path_template="").disambiguated_field
     f = _resolve(meta["file"], meta["qual"])
     if name == "address_resolve":
         from gapic.schema import metadata
